@@ -393,6 +393,12 @@ pub fn run(ctx: &mut Ctx) {
         };
         let mut hs: Vec<Handle> = vec![];
         let mut wat = String::from("(module\n  (type (func))\n");
+        // structurally equal types in the type section (the interning map then has fewer entries than the section has types)
+        match r.below(4) {
+            0 => wat.push_str("  (type (func))\n"),
+            1 => wat.push_str("  (type (func (param i32)))\n  (type (func))\n  (type (func (param i64) (result i64)))\n  (type (func (param i32)))\n"),
+            _ => {}
+        }
         let mut imp_line: Vec<String> = vec![];
         let mut f_items: Vec<String> = vec![];
         let mut g_items: Vec<String> = vec![];
